@@ -108,6 +108,9 @@ pub fn gen_knobs(rng: &mut Rng, wide: bool) -> Knobs {
 
 #[derive(Clone, Copy, Debug, PartialEq, Eq)]
 pub enum KeyClass {
+    /// families of keys 10-20 bytes long over {00, 01, FF} in which keys are zero-padded or
+    /// otherwise extended forms of one another (lengths around 15/16/17)
+    Family,
     Alpha,
     Counter,
     Long,
@@ -118,6 +121,32 @@ pub enum KeyClass {
 pub fn gen_keys(rng: &mut Rng, n: usize, class: KeyClass, block: usize) -> Vec<Vec<u8>> {
     let mut set: BTreeSet<Vec<u8>> = BTreeSet::new();
     match class {
+        KeyClass::Family => {
+            let mut tries = 0;
+            while set.len() < n && tries < n * 3 + 8 {
+                tries += 1;
+                let stem_len = rng.urange(9, 16);
+                let mut stem: Vec<u8> = (0..stem_len).map(|_| *rng.pick(&[0x00u8, 0x01, 0x61, 0xFF])).collect();
+                if rng.chance(1, 5) {
+                    // a run of 0xFF bytes at the front (keys above every "ordinary" bound)
+                    let run = rng.urange(8, 10).min(stem.len());
+                    for b in stem[..run].iter_mut() {
+                        *b = 0xFF;
+                    }
+                }
+                set.insert(stem.clone());
+                let mut k = stem;
+                for _ in 0..rng.urange(1, 6) {
+                    if k.len() >= 22 {
+                        break;
+                    }
+                    k.push(*rng.pick(&[0x00u8, 0x00, 0x00, 0x01, 0xFF]));
+                    if set.len() < n {
+                        set.insert(k.clone());
+                    }
+                }
+            }
+        }
         KeyClass::Alpha => {
             let maxlen = rng.urange(2, 6);
             let mut tries = 0;
@@ -202,6 +231,9 @@ pub fn gen_value_len(rng: &mut Rng, profile: u8, block: usize, klen: usize) -> u
             // framing boundaries 2^7, 2^14 and, rarely (2 MiB per entry), 2^21
             if rng.chance(1, 40) {
                 *rng.pick(&[(1usize << 21) - 1, 1 << 21, (1 << 21) + 1])
+            } else if rng.chance(1, 30) {
+                // tens of KiB: larger than the internal buffers of the codec crates
+                rng.urange(60_000, 200_000)
             } else {
                 *rng.pick(&[127usize, 128, 129, 16383, 16384, 16385])
             }
@@ -224,8 +256,8 @@ pub fn make_value(rng: &mut Rng, idx: usize, len: usize, compressible: bool) -> 
 
 pub fn gen_entries(rng: &mut Rng, maxn: usize, block: usize, byte_cap: usize) -> Vec<(B, B)> {
     let n = rng.log_uniform(0, maxn as u64) as usize;
-    let class = [KeyClass::Alpha, KeyClass::Counter, KeyClass::Long, KeyClass::Giant, KeyClass::Random]
-        [rng.weighted(&[25, 30, 20, 5, 20])];
+    let class = [KeyClass::Alpha, KeyClass::Counter, KeyClass::Long, KeyClass::Giant, KeyClass::Random, KeyClass::Family]
+        [rng.weighted(&[24, 28, 19, 5, 18, 6])];
     gen_entries_with(rng, n, class, block, byte_cap)
 }
 
@@ -238,7 +270,7 @@ pub fn gen_entries_with(rng: &mut Rng, n: usize, class: KeyClass, block: usize, 
     let mut out = Vec::with_capacity(keys.len());
     for (i, k) in keys.into_iter().enumerate() {
         let mut vl = gen_value_len(rng, profile, block.min(8192), k.len());
-        if total + vl > byte_cap && !(vl >= (1 << 21) - 1 && vl <= (1 << 21) + 1 && total < (1 << 21)) {
+        if total + vl > byte_cap && !(vl >= (1 << 21) - 1 && vl <= (1 << 21) + 1 && total < (1 << 21)) && !(vl >= 60_000 && vl <= 200_000 && total < 400_000) {
             vl = rng.urange(0, 8);
         }
         total += vl + k.len();
@@ -253,7 +285,26 @@ pub fn gen_entries_with(rng: &mut Rng, n: usize, class: KeyClass, block: usize, 
     out
 }
 
+/// A block holding more than 2^16 entries, each with its own footer offset, followed by more blocks.
+pub fn gen_dense_spec(rng: &mut Rng) -> FileSpec {
+    let n = rng.urange(70_000, 140_000);
+    let ents = (0..n).map(|i| (B((i as u32 * 2 + 1).to_be_bytes()[1..].to_vec()), B(Vec::new()))).collect();
+    let knobs = Knobs {
+        codec: *rng.pick(&[0u8, 0, 5, 3]),
+        level: 0,
+        block_size: Some(*rng.pick(&[1usize << 20, 3 << 19])),
+        interval: Some(*rng.pick(&[1usize, 1, 2])),
+        levels: *rng.pick(&[0u8, 1, 2]),
+        ctor: 0,
+        fin: 0,
+    };
+    FileSpec { knobs, entries: Entries::Literal(ents) }
+}
+
 pub fn gen_file_spec(rng: &mut Rng, tier: Tier, wide: bool) -> FileSpec {
+    if rng.chance(1, 400) {
+        return gen_dense_spec(rng);
+    }
     let knobs = gen_knobs(rng, wide);
     let (maxn, cap) = match tier {
         Tier::Quick => (3000, 192 * 1024),
